@@ -137,33 +137,25 @@ func (node *PFCPNode) Serve() {
 				logger.PfcpLog.Errorln("error closing PFCPNode conn", err)
 			}
 
-			// Clear out the remaining pconn completions
-		clearLoop:
+			// Wait for every PFCPConn to report its exit. Each of them sees ctx.Done (or has already begun
+			// to shut down) and sends its address exactly once; the channel must stay open meanwhile.
 			for {
-				select {
-				case rAddr, ok := <-node.pConnDone:
-					{
-						if !ok {
-							// channel is closed, break
-							break clearLoop
-						}
-						node.pConns.Delete(rAddr)
-						logger.PfcpLog.Infoln("removed connection to", rAddr)
-					}
-				default:
-					// nothing to read from channel
-					break clearLoop
+				remaining := 0
+
+				node.pConns.Range(func(_, _ interface{}) bool {
+					remaining++
+					return true
+				})
+
+				if remaining == 0 {
+					break
 				}
+
+				rAddr := <-node.pConnDone
+				node.pConns.Delete(rAddr)
+				logger.PfcpLog.Infoln("removed connection to", rAddr)
 			}
 
-			if len(node.pConnDone) > 0 {
-				for rAddr := range node.pConnDone {
-					node.pConns.Delete(rAddr)
-					logger.PfcpLog.Infoln("removed connection to", rAddr)
-				}
-			}
-
-			close(node.pConnDone)
 			logger.PfcpLog.Infoln("done waiting for PFCPConn completions")
 
 			node.upf.Exit()
